@@ -220,7 +220,10 @@ type placement struct {
 	Class        string `json:"class"`
 	// Size: the value is padded to just above that size ("" = as short as the kind allows; see sizes)
 	Size string `json:"size,omitempty"`
-	For  int    `json:"for_position"` // chain position the item was generated for (-1: none)
+	// Chars: the value contains characters a decoder on the way may choke on or rewrite (name of an entry of
+	// charVariants; "" = letters, digits, '_', '-', '.' only). The remote side knows exactly that byte string.
+	Chars string `json:"special_characters,omitempty"`
+	For   int    `json:"for_position"` // chain position the item was generated for (-1: none)
 }
 
 type lreq struct {
@@ -230,6 +233,13 @@ type lreq struct {
 	// Content-Type header (name of an entry of contentTypes; "" = the plain media type)
 	BodyEnc string `json:"body_encoding,omitempty"`
 	CT      string `json:"content_type_spelling,omitempty"`
+	// Method: the method of the request ("" = GET, POST when credentials travel in the body). Carrier != "": the decision
+	// service is called by a trusted proxy with the method Carrier, the method of the original request is named by
+	// X-Forwarded-Method (the Envoy entry point gets Method in the method attribute).
+	Method  string `json:"method,omitempty"`
+	Carrier string `json:"method_of_the_proxy_call,omitempty"`
+	// Path: what follows the route prefix of the rule in the request path (name of an entry of pathVariants; "" = nothing)
+	Path string `json:"path_variant,omitempty"`
 }
 
 func (r lreq) shapeKey() string {
@@ -243,11 +253,23 @@ func (r lreq) shapeKey() string {
 		if it.Size != "" {
 			size = "+" + it.Size
 		}
+		if it.Chars != "" {
+			size += "+chars-" + it.Chars
+		}
 		p = append(p, fmt.Sprintf("%s[%s%s]=%s-%s%s@%d", it.Slot, it.Scheme, sep, it.Kind, it.Class, size, it.For))
 	}
 	k := r.Recipe + "{" + strings.Join(p, ",") + "}"
 	if r.BodyEnc != "" || r.CT != "" {
 		k += "body:" + r.BodyEnc + "/" + r.CT
+	}
+	if r.Method != "" {
+		k += "method:" + r.Method
+		if r.Carrier != "" {
+			k += "-forwarded-by-" + r.Carrier
+		}
+	}
+	if r.Path != "" {
+		k += "path:" + r.Path
 	}
 	return k
 }
@@ -263,7 +285,7 @@ func (r lreq) hasBodyItems() bool {
 
 // withoutBody: the same request as seen by a reader that does not decode the body.
 func (r lreq) withoutBody() lreq {
-	out := lreq{Recipe: r.Recipe, BodyEnc: r.BodyEnc, CT: r.CT}
+	out := lreq{Recipe: r.Recipe, BodyEnc: r.BodyEnc, CT: r.CT, Method: r.Method, Carrier: r.Carrier, Path: r.Path}
 	for _, it := range r.Items {
 		if it.Slot[0] != 'B' {
 			out.Items = append(out.Items, it)
@@ -370,14 +392,19 @@ type stepView struct {
 	Seen    string  `json:"seen"` // what the authenticator sees: "absent" | "other-scheme" | "<kind>-<class>"
 	Slot    string  `json:"slot,omitempty"`
 	Size    string  `json:"size,omitempty"` // size class of the value it sees ("" = short)
+	Chars   string  `json:"special_characters,omitempty"`
 }
 
-// what: Seen and the size class of the value (part of violation signatures).
+// what: Seen, the size class of the value and the special characters in it (part of violation signatures).
 func (v stepView) what() string {
+	s := v.Seen
 	if v.Size != "" {
-		return v.Seen + "+" + v.Size
+		s += "+" + v.Size
 	}
-	return v.Seen
+	if v.Chars != "" {
+		s += "+chars-" + v.Chars
+	}
+	return s
 }
 
 // extract follows the documentation of "Authentication Data Source": strategies in order, a later one
@@ -431,7 +458,7 @@ func classify(e elem, r lreq) stepView {
 		}
 		return stepView{Verdict: vNone, Seen: "absent"}
 	}
-	sv := stepView{Seen: seenName(it.Kind, it.Class), Slot: it.Slot, Size: it.Size}
+	sv := stepView{Seen: seenName(it.Kind, it.Class), Slot: it.Slot, Size: it.Size, Chars: it.Chars}
 	if raw == "" { // whitespace only value
 		sv.Verdict = vAmbig
 		return sv
